@@ -374,3 +374,8 @@ func VerifTickReady(a *Agent) bool {
 
 // VerifConn returns a Conn bound to the agent (as startConnect creates it).
 func VerifConn(a *Agent) *Conn { return &Conn{agent: a} }
+
+// VerifBufferedPackets returns the number of datagrams queued for Conn.Read.
+func VerifBufferedPackets(a *Agent) int {
+	return a.buf.Count()
+}
